@@ -10,7 +10,8 @@ from vfw.hlib import Tag, conc, concb, drive, fresh, note
 from vfw.hspec import B, H, I, OS, bind
 
 KINDS = ["require", "ensure", "snapshot", "invariant"]
-TARGETS = ["function", "async_function", "method", "staticmethod_func", "classmethod_func", "property_getter"]
+TARGETS = ["function", "async_function", "method", "staticmethod_func", "classmethod_func", "property_getter",
+           "dbc_overridden_method"]
 _GLOBALS_SRC = None  # type: Optional[str]
 
 
@@ -103,7 +104,7 @@ def run_enabled(kind_i: int, target_i: int, how: int, en: bool, env: Optional[st
         def call() -> Any:
             return K().m(1)
     else:
-        if target in ("method", "property_getter"):
+        if target in ("method", "property_getter", "dbc_overridden_method"):
             def bare(self: Any, x: Any = 1) -> Any:
                 calls["body"] += 1
                 return "res"
@@ -135,7 +136,18 @@ def run_enabled(kind_i: int, target_i: int, how: int, en: bool, env: Optional[st
             # the very object, no attributes added
             if f is not subject or dict(vars(subject)) != before:
                 ok = False
-        if target == "method":
+        if target == "dbc_overridden_method":
+            # the contract is declared on a DBC base; a subclass overrides the method without own contracts
+            base_cls = icontract.DBCMeta("Base", (icontract.DBC,), {"m": f})
+
+            def override(self: Any, x: Any = 1) -> Any:
+                calls["body"] += 1
+                return "res"
+            holder = icontract.DBCMeta("Derived", (base_cls,), {"m": override})
+
+            def call() -> Any:
+                return holder().m(1)
+        elif target == "method":
             holder = type("H", (), {"m": f})
 
             def call() -> Any:
